@@ -19,6 +19,7 @@ harness, not proved (PARTIAL, see DESIGN §7 C13).
 import FV.Model.Registry
 import FV.Proofs.Registry
 import FV.Generated.Params
+import FV.Generated.Locks
 
 namespace FV.C13
 open FV.Reg
@@ -92,5 +93,14 @@ theorem c13_code_unregister_deferred :
 /-! Non-vacuity: a silent peer; the call times out and unregisters. -/
 example : ∃ s, run (init 1 false [5]) [.register 0, .timeout 0, .unregister 0] = some s ∧
     s.callers = [⟨5, .done .timedOut, []⟩] ∧ s.registry = [] := ⟨_, rfl, by decide, by decide⟩
+
+/-- **Lock discipline behind the model's atomic steps** (registry, adapter lifecycle lock, framed reader), decided by the kernel on facts
+REGENERATED from lib/go's source on every check (harness/locks → FV/Generated/Locks.lean): no function
+calls, while it holds one of these mutexes, anything that (transitively) acquires the same mutex, no
+lexical re-lock, and every path out of a function releases what the function locked. This is what makes a
+critical section ONE step of the model and rules out the self-deadlocks (a second RLock behind a queued
+writer, SendError under SendReply's lock) and leaked locks that would wedge every later request. -/
+theorem c13_lock_discipline :
+    FV.Locks.ok [1, 2, 3] FV.Generated.Locks.mutexTags FV.Generated.Locks.facts = true := by decide +kernel
 
 end FV.C13
